@@ -48,7 +48,7 @@ macro_rules! static_harness {
 }
 
 // GENERATED-BELOW (lib/gen_harnesses.py)
-static_harness!(c01_q_st_se_def_n2g0_x_pl, n=2, words=1, unwind=6, Sem::ST, Enc::Default, Kind::SE, Pres::Plain, cert=false, ANSWER, qs=[[]], fault=0, codes=[0]);
+static_harness!(c01_x_st_se_def_n2g0_x_pl, n=2, words=1, unwind=6, Sem::ST, Enc::Default, Kind::SE, Pres::Plain, cert=false, ANSWER, qs=[[]], fault=0, codes=[0]);
 static_harness!(c01_q_st_se_def_n2g6_x_pl, n=2, words=1, unwind=6, Sem::ST, Enc::Default, Kind::SE, Pres::Plain, cert=false, ANSWER, qs=[[]], fault=0, codes=[6]);
 static_harness!(c01_q_st_se_def_n2g8_x_pl, n=2, words=1, unwind=6, Sem::ST, Enc::Default, Kind::SE, Pres::Plain, cert=false, ANSWER, qs=[[]], fault=0, codes=[8]);
 static_harness!(c01_q_st_se_def_n2g10_x_pl, n=2, words=1, unwind=6, Sem::ST, Enc::Default, Kind::SE, Pres::Plain, cert=false, ANSWER, qs=[[]], fault=0, codes=[10]);
@@ -56,20 +56,19 @@ static_harness!(c01_q_st_se_def_n2g14_x_pl, n=2, words=1, unwind=6, Sem::ST, Enc
 static_harness!(c01_q_gr_se_def_n2g2_x_s1, n=2, words=1, unwind=6, Sem::GR, Enc::Default, Kind::SE, Pres::SparseFirst, cert=false, ANSWER, qs=[[]], fault=0, codes=[2]);
 static_harness!(c01_q_gr_se_def_n2g6_x_du, n=2, words=1, unwind=6, Sem::GR, Enc::Default, Kind::SE, Pres::Dup, cert=false, ANSWER, qs=[[]], fault=0, codes=[6]);
 static_harness!(c01_q_gr_se_def_n2g10_x_pl, n=2, words=1, unwind=6, Sem::GR, Enc::Default, Kind::SE, Pres::Plain, cert=false, ANSWER, qs=[[]], fault=0, codes=[10]);
-static_harness!(c01_q_co_se_def_n2g14_x_s2, n=2, words=1, unwind=6, Sem::CO, Enc::Default, Kind::SE, Pres::SparseMid, cert=false, ANSWER, qs=[[]], fault=0, codes=[14]);
+static_harness!(c01_x_co_se_def_n2g14_x_s2, n=2, words=1, unwind=6, Sem::CO, Enc::Default, Kind::SE, Pres::SparseMid, cert=false, ANSWER, qs=[[]], fault=0, codes=[14]);
 static_harness!(c01_q_st_se_def_n3g42_x_pl, n=3, words=1, unwind=7, Sem::ST, Enc::Default, Kind::SE, Pres::Plain, cert=false, ANSWER, qs=[[]], fault=0, codes=[42]);
 static_harness!(c01_t_st_se_def_n2g9_x_pl, n=2, words=1, unwind=6, Sem::ST, Enc::Default, Kind::SE, Pres::Plain, cert=false, ANSWER, qs=[[]], fault=0, codes=[9]);
 static_harness!(c01_t_st_se_def_n2g2_x_pl, n=2, words=1, unwind=6, Sem::ST, Enc::Default, Kind::SE, Pres::Plain, cert=false, ANSWER, qs=[[]], fault=0, codes=[2]);
 static_harness!(c01_t_st_se_def_n2g7_x_pl, n=2, words=1, unwind=6, Sem::ST, Enc::Default, Kind::SE, Pres::Plain, cert=false, ANSWER, qs=[[]], fault=0, codes=[7]);
 static_harness!(c01_t_st_se_def_n2g11_x_pl, n=2, words=1, unwind=6, Sem::ST, Enc::Default, Kind::SE, Pres::Plain, cert=false, ANSWER, qs=[[]], fault=0, codes=[11]);
-static_harness!(c01_t_st_se_def_n2g0_x_du, n=2, words=1, unwind=6, Sem::ST, Enc::Default, Kind::SE, Pres::Dup, cert=false, ANSWER, qs=[[]], fault=0, codes=[0]);
+static_harness!(c01_x_st_se_def_n2g0_x_du, n=2, words=1, unwind=6, Sem::ST, Enc::Default, Kind::SE, Pres::Dup, cert=false, ANSWER, qs=[[]], fault=0, codes=[0]);
 static_harness!(c01_t_st_se_def_n2g6_x_s1, n=2, words=1, unwind=6, Sem::ST, Enc::Default, Kind::SE, Pres::SparseFirst, cert=false, ANSWER, qs=[[]], fault=0, codes=[6]);
 static_harness!(c01_t_st_se_def_n2g14_x_s2, n=2, words=1, unwind=6, Sem::ST, Enc::Default, Kind::SE, Pres::SparseMid, cert=false, ANSWER, qs=[[]], fault=0, codes=[14]);
 static_harness!(c01_t_st_se_def_n2g10_x_du, n=2, words=1, unwind=6, Sem::ST, Enc::Default, Kind::SE, Pres::Dup, cert=false, ANSWER, qs=[[]], fault=0, codes=[10]);
 static_harness!(c01_t_st_se_def_n3g98_x_pl, n=3, words=1, unwind=7, Sem::ST, Enc::Default, Kind::SE, Pres::Plain, cert=false, ANSWER, qs=[[]], fault=0, codes=[98]);
-static_harness!(c01_t_st_se_def_n3g8_x_pl, n=3, words=1, unwind=7, Sem::ST, Enc::Default, Kind::SE, Pres::Plain, cert=false, ANSWER, qs=[[]], fault=0, codes=[8]);
+static_harness!(c01_x_st_se_def_n3g8_x_pl, n=3, words=1, unwind=7, Sem::ST, Enc::Default, Kind::SE, Pres::Plain, cert=false, ANSWER, qs=[[]], fault=0, codes=[8]);
 static_harness!(c01_t_st_se_def_n3g290_x_pl, n=3, words=1, unwind=7, Sem::ST, Enc::Default, Kind::SE, Pres::Plain, cert=false, ANSWER, qs=[[]], fault=0, codes=[290]);
-static_harness!(c01_t_st_se_def_n3g0_x_pl, n=3, words=1, unwind=7, Sem::ST, Enc::Default, Kind::SE, Pres::Plain, cert=false, ANSWER, qs=[[]], fault=0, codes=[0]);
 static_harness!(c01_t_st_se_def_n3g34_x_pl, n=3, words=1, unwind=7, Sem::ST, Enc::Default, Kind::SE, Pres::Plain, cert=false, ANSWER, qs=[[]], fault=0, codes=[34]);
 static_harness!(c01_t_gr_se_def_n3g42_x_du, n=3, words=1, unwind=7, Sem::GR, Enc::Default, Kind::SE, Pres::Dup, cert=false, ANSWER, qs=[[]], fault=0, codes=[42]);
 static_harness!(c01_t_gr_se_def_n3g290_x_du, n=3, words=1, unwind=7, Sem::GR, Enc::Default, Kind::SE, Pres::Dup, cert=false, ANSWER, qs=[[]], fault=0, codes=[290]);
@@ -168,24 +167,20 @@ static_harness!(c03_t_gr_ds_def_n3g34_c_du, n=3, words=1, unwind=7, Sem::GR, Enc
 static_harness!(c03_t_gr_ds_def_n3g42_c_du, n=3, words=1, unwind=7, Sem::GR, Enc::Default, Kind::DS, Pres::Dup, cert=false, ANSWER, qs=[[2]], fault=0, codes=[42]);
 static_harness!(c03_t_gr_ds_def_n3g290_b_du, n=3, words=1, unwind=7, Sem::GR, Enc::Default, Kind::DS, Pres::Dup, cert=false, ANSWER, qs=[[1]], fault=0, codes=[290]);
 static_harness!(c03_t_gr_ds_def_n3g137_a_du, n=3, words=1, unwind=7, Sem::GR, Enc::Default, Kind::DS, Pres::Dup, cert=false, ANSWER, qs=[[0]], fault=0, codes=[137]);
-static_harness!(c04_q_st_dc_def_n2g0_a_pl_cert, n=2, words=1, unwind=6, Sem::ST, Enc::Default, Kind::DC, Pres::Plain, cert=true, CERT, qs=[[0]], fault=0, codes=[0]);
+static_harness!(c04_x_st_dc_def_n2g0_a_pl_cert, n=2, words=1, unwind=6, Sem::ST, Enc::Default, Kind::DC, Pres::Plain, cert=true, CERT, qs=[[0]], fault=0, codes=[0]);
 static_harness!(c04_q_st_dc_def_n2g2_a_pl_cert, n=2, words=1, unwind=6, Sem::ST, Enc::Default, Kind::DC, Pres::Plain, cert=true, CERT, qs=[[0]], fault=0, codes=[2]);
 static_harness!(c04_q_st_dc_def_n2g6_b_pl_cert, n=2, words=1, unwind=6, Sem::ST, Enc::Default, Kind::DC, Pres::Plain, cert=true, CERT, qs=[[1]], fault=0, codes=[6]);
 static_harness!(c04_q_st_dc_def_n2g14_a_pl_cert, n=2, words=1, unwind=6, Sem::ST, Enc::Default, Kind::DC, Pres::Plain, cert=true, CERT, qs=[[0]], fault=0, codes=[14]);
 static_harness!(c04_q_st_ds_def_n2g6_a_pl_cert, n=2, words=1, unwind=6, Sem::ST, Enc::Default, Kind::DS, Pres::Plain, cert=true, CERT, qs=[[0]], fault=0, codes=[6]);
 static_harness!(c04_q_st_ds_def_n2g10_a_pl_cert, n=2, words=1, unwind=6, Sem::ST, Enc::Default, Kind::DS, Pres::Plain, cert=true, CERT, qs=[[0]], fault=0, codes=[10]);
 static_harness!(c04_q_st_ds_def_n2g2_b_pl_cert, n=2, words=1, unwind=6, Sem::ST, Enc::Default, Kind::DS, Pres::Plain, cert=true, CERT, qs=[[1]], fault=0, codes=[2]);
-static_harness!(c04_q_co_dc_aux_n2g6_a_pl_cert, n=2, words=1, unwind=7, Sem::CO, Enc::AuxCo, Kind::DC, Pres::Plain, cert=true, CERT, qs=[[0]], fault=0, codes=[6]);
-static_harness!(c04_q_co_dc_aux_n2g14_a_s1_cert, n=2, words=1, unwind=7, Sem::CO, Enc::AuxCo, Kind::DC, Pres::SparseFirst, cert=true, CERT, qs=[[0]], fault=0, codes=[14]);
-static_harness!(c04_q_co_dc_exp_n2g0_b_pl_cert, n=2, words=1, unwind=6, Sem::CO, Enc::ExpCo, Kind::DC, Pres::Plain, cert=true, CERT, qs=[[1]], fault=0, codes=[0]);
+static_harness!(c04_x_co_dc_aux_n2g6_a_pl_cert, n=2, words=1, unwind=7, Sem::CO, Enc::AuxCo, Kind::DC, Pres::Plain, cert=true, CERT, qs=[[0]], fault=0, codes=[6]);
+static_harness!(c04_x_co_dc_aux_n2g14_a_s1_cert, n=2, words=1, unwind=7, Sem::CO, Enc::AuxCo, Kind::DC, Pres::SparseFirst, cert=true, CERT, qs=[[0]], fault=0, codes=[14]);
+static_harness!(c04_x_co_dc_exp_n2g0_b_pl_cert, n=2, words=1, unwind=6, Sem::CO, Enc::ExpCo, Kind::DC, Pres::Plain, cert=true, CERT, qs=[[1]], fault=0, codes=[0]);
 static_harness!(c04_q_gr_ds_def_n2g2_b_pl_cert, n=2, words=1, unwind=6, Sem::GR, Enc::Default, Kind::DS, Pres::Plain, cert=true, CERT, qs=[[1]], fault=0, codes=[2]);
 static_harness!(c04_q_gr_dc_def_n2g2_a_s2_cert, n=2, words=1, unwind=6, Sem::GR, Enc::Default, Kind::DC, Pres::SparseMid, cert=true, CERT, qs=[[0]], fault=0, codes=[2]);
-static_harness!(c04_q_co_dc_aux_n3g0_a_pl_cert, n=3, words=2, unwind=9, Sem::CO, Enc::AuxCo, Kind::DC, Pres::Plain, cert=true, CERT, qs=[[0]], fault=0, codes=[0]);
-static_harness!(c04_q_st_dc_def_n3g8_c_pl_cert, n=3, words=1, unwind=7, Sem::ST, Enc::Default, Kind::DC, Pres::Plain, cert=true, CERT, qs=[[2]], fault=0, codes=[8]);
-static_harness!(c04_t_st_dc_def_n2g0_a_pl_cert, n=2, words=1, unwind=6, Sem::ST, Enc::Default, Kind::DC, Pres::Plain, cert=true, CERT, qs=[[0]], fault=0, codes=[0]);
-static_harness!(c04_t_st_ds_def_n2g0_a_pl_cert, n=2, words=1, unwind=6, Sem::ST, Enc::Default, Kind::DS, Pres::Plain, cert=true, CERT, qs=[[0]], fault=0, codes=[0]);
-static_harness!(c04_t_st_dc_def_n2g0_b_pl_cert, n=2, words=1, unwind=6, Sem::ST, Enc::Default, Kind::DC, Pres::Plain, cert=true, CERT, qs=[[1]], fault=0, codes=[0]);
-static_harness!(c04_t_st_ds_def_n2g0_b_pl_cert, n=2, words=1, unwind=6, Sem::ST, Enc::Default, Kind::DS, Pres::Plain, cert=true, CERT, qs=[[1]], fault=0, codes=[0]);
+static_harness!(c04_x_co_dc_aux_n3g0_a_pl_cert, n=3, words=2, unwind=9, Sem::CO, Enc::AuxCo, Kind::DC, Pres::Plain, cert=true, CERT, qs=[[0]], fault=0, codes=[0]);
+static_harness!(c04_x_st_dc_def_n3g8_c_pl_cert, n=3, words=1, unwind=7, Sem::ST, Enc::Default, Kind::DC, Pres::Plain, cert=true, CERT, qs=[[2]], fault=0, codes=[8]);
 static_harness!(c04_t_st_dc_def_n2g2_a_pl_cert, n=2, words=1, unwind=6, Sem::ST, Enc::Default, Kind::DC, Pres::Plain, cert=true, CERT, qs=[[0]], fault=0, codes=[2]);
 static_harness!(c04_t_st_ds_def_n2g2_a_pl_cert, n=2, words=1, unwind=6, Sem::ST, Enc::Default, Kind::DS, Pres::Plain, cert=true, CERT, qs=[[0]], fault=0, codes=[2]);
 static_harness!(c04_t_st_dc_def_n2g2_b_pl_cert, n=2, words=1, unwind=6, Sem::ST, Enc::Default, Kind::DC, Pres::Plain, cert=true, CERT, qs=[[1]], fault=0, codes=[2]);
@@ -202,41 +197,24 @@ static_harness!(c04_t_st_dc_def_n2g8_a_pl_cert, n=2, words=1, unwind=6, Sem::ST,
 static_harness!(c04_t_st_ds_def_n2g8_a_pl_cert, n=2, words=1, unwind=6, Sem::ST, Enc::Default, Kind::DS, Pres::Plain, cert=true, CERT, qs=[[0]], fault=0, codes=[8]);
 static_harness!(c04_t_st_dc_def_n2g8_b_pl_cert, n=2, words=1, unwind=6, Sem::ST, Enc::Default, Kind::DC, Pres::Plain, cert=true, CERT, qs=[[1]], fault=0, codes=[8]);
 static_harness!(c04_t_st_ds_def_n2g8_b_pl_cert, n=2, words=1, unwind=6, Sem::ST, Enc::Default, Kind::DS, Pres::Plain, cert=true, CERT, qs=[[1]], fault=0, codes=[8]);
-static_harness!(c04_t_co_dc_aux_n2g6_b_du_cert, n=2, words=1, unwind=7, Sem::CO, Enc::AuxCo, Kind::DC, Pres::Dup, cert=true, CERT, qs=[[1]], fault=0, codes=[6]);
-static_harness!(c04_t_co_dc_exp_n2g14_b_pl_cert, n=2, words=1, unwind=6, Sem::CO, Enc::ExpCo, Kind::DC, Pres::Plain, cert=true, CERT, qs=[[1]], fault=0, codes=[14]);
-static_harness!(c04_t_co_dc_hyb_n2g6_a_pl_cert, n=2, words=1, unwind=6, Sem::CO, Enc::Hybrid, Kind::DC, Pres::Plain, cert=true, CERT, qs=[[0]], fault=0, codes=[6]);
-static_harness!(c04_t_co_dc_aux_n2g0_a_s2_cert, n=2, words=1, unwind=7, Sem::CO, Enc::AuxCo, Kind::DC, Pres::SparseMid, cert=true, CERT, qs=[[0]], fault=0, codes=[0]);
-static_harness!(c04_t_co_dc_aux_n2g7_b_pl_cert, n=2, words=1, unwind=7, Sem::CO, Enc::AuxCo, Kind::DC, Pres::Plain, cert=true, CERT, qs=[[1]], fault=0, codes=[7]);
-static_harness!(c04_t_pr_dc_exp_n2g2_b_pl_cert, n=2, words=1, unwind=6, Sem::PR, Enc::ExpCo, Kind::DC, Pres::Plain, cert=true, CERT, qs=[[1]], fault=0, codes=[2]);
 static_harness!(c04_t_st_dc_def_n3g42_a_pl_cert, n=3, words=1, unwind=7, Sem::ST, Enc::Default, Kind::DC, Pres::Plain, cert=true, CERT, qs=[[0]], fault=0, codes=[42]);
 static_harness!(c04_t_st_dc_def_n3g42_c_pl_cert, n=3, words=1, unwind=7, Sem::ST, Enc::Default, Kind::DC, Pres::Plain, cert=true, CERT, qs=[[2]], fault=0, codes=[42]);
-static_harness!(c04_t_st_dc_def_n3g0_b_pl_cert, n=3, words=1, unwind=7, Sem::ST, Enc::Default, Kind::DC, Pres::Plain, cert=true, CERT, qs=[[1]], fault=0, codes=[0]);
-static_harness!(c04_t_st_dc_def_n3g2_c_pl_cert, n=3, words=1, unwind=7, Sem::ST, Enc::Default, Kind::DC, Pres::Plain, cert=true, CERT, qs=[[2]], fault=0, codes=[2]);
 static_harness!(c04_t_st_dc_def_n3g98_a_pl_cert, n=3, words=1, unwind=7, Sem::ST, Enc::Default, Kind::DC, Pres::Plain, cert=true, CERT, qs=[[0]], fault=0, codes=[98]);
 static_harness!(c04_t_st_ds_def_n3g42_b_pl_cert, n=3, words=1, unwind=7, Sem::ST, Enc::Default, Kind::DS, Pres::Plain, cert=true, CERT, qs=[[1]], fault=0, codes=[42]);
-static_harness!(c04_t_st_ds_def_n3g8_a_pl_cert, n=3, words=1, unwind=7, Sem::ST, Enc::Default, Kind::DS, Pres::Plain, cert=true, CERT, qs=[[0]], fault=0, codes=[8]);
 static_harness!(c04_t_st_ds_def_n3g34_b_pl_cert, n=3, words=1, unwind=7, Sem::ST, Enc::Default, Kind::DS, Pres::Plain, cert=true, CERT, qs=[[1]], fault=0, codes=[34]);
-static_harness!(c04_t_co_dc_aux_n3g0_b_pl_cert, n=3, words=2, unwind=9, Sem::CO, Enc::AuxCo, Kind::DC, Pres::Plain, cert=true, CERT, qs=[[1]], fault=0, codes=[0]);
-static_harness!(c04_t_co_dc_aux_n3g2_c_pl_cert, n=3, words=2, unwind=9, Sem::CO, Enc::AuxCo, Kind::DC, Pres::Plain, cert=true, CERT, qs=[[2]], fault=0, codes=[2]);
-static_harness!(c04_t_co_dc_aux_n3g42_a_pl_cert, n=3, words=2, unwind=9, Sem::CO, Enc::AuxCo, Kind::DC, Pres::Plain, cert=true, CERT, qs=[[0]], fault=0, codes=[42]);
-static_harness!(c04_t_co_dc_aux_n3g8_c_pl_cert, n=3, words=2, unwind=9, Sem::CO, Enc::AuxCo, Kind::DC, Pres::Plain, cert=true, CERT, qs=[[2]], fault=0, codes=[8]);
-static_harness!(c07_q_co_dc_aux_n2g6_ab_pl_cert, n=2, words=1, unwind=7, Sem::CO, Enc::AuxCo, Kind::DC, Pres::Plain, cert=true, CERT, qs=[[0, 1]], fault=0, codes=[6]);
-static_harness!(c07_q_co_dc_aux_n2g0_ab_pl_cert, n=2, words=1, unwind=7, Sem::CO, Enc::AuxCo, Kind::DC, Pres::Plain, cert=true, CERT, qs=[[0, 1]], fault=0, codes=[0]);
-static_harness!(c07_q_co_dc_aux_n2g14_ba_pl_cert, n=2, words=1, unwind=7, Sem::CO, Enc::AuxCo, Kind::DC, Pres::Plain, cert=true, CERT, qs=[[1, 0]], fault=0, codes=[14]);
+static_harness!(c07_x_co_dc_aux_n2g6_ab_pl_cert, n=2, words=1, unwind=7, Sem::CO, Enc::AuxCo, Kind::DC, Pres::Plain, cert=true, CERT, qs=[[0, 1]], fault=0, codes=[6]);
+static_harness!(c07_x_co_dc_aux_n2g0_ab_pl_cert, n=2, words=1, unwind=7, Sem::CO, Enc::AuxCo, Kind::DC, Pres::Plain, cert=true, CERT, qs=[[0, 1]], fault=0, codes=[0]);
+static_harness!(c07_x_co_dc_aux_n2g14_ba_pl_cert, n=2, words=1, unwind=7, Sem::CO, Enc::AuxCo, Kind::DC, Pres::Plain, cert=true, CERT, qs=[[1, 0]], fault=0, codes=[14]);
 static_harness!(c07_q_co_dc_aux_n2g6_ab_pl, n=2, words=1, unwind=7, Sem::CO, Enc::AuxCo, Kind::DC, Pres::Plain, cert=false, ANSWER, qs=[[0, 1]], fault=0, codes=[6]);
 static_harness!(c07_q_st_dc_def_n2g2_ba_pl_cert, n=2, words=1, unwind=6, Sem::ST, Enc::Default, Kind::DC, Pres::Plain, cert=true, CERT, qs=[[1, 0]], fault=0, codes=[2]);
-static_harness!(c07_q_st_dc_def_n2g0_ab_pl_cert, n=2, words=1, unwind=6, Sem::ST, Enc::Default, Kind::DC, Pres::Plain, cert=true, CERT, qs=[[0, 1]], fault=0, codes=[0]);
+static_harness!(c07_x_st_dc_def_n2g0_ab_pl_cert, n=2, words=1, unwind=6, Sem::ST, Enc::Default, Kind::DC, Pres::Plain, cert=true, CERT, qs=[[0, 1]], fault=0, codes=[0]);
 static_harness!(c07_q_st_dc_def_n2g9_aa_pl_cert, n=2, words=1, unwind=6, Sem::ST, Enc::Default, Kind::DC, Pres::Plain, cert=true, CERT, qs=[[0, 0]], fault=0, codes=[9]);
 static_harness!(c07_q_st_dc_def_n2g10_ba_pl_cert, n=2, words=1, unwind=6, Sem::ST, Enc::Default, Kind::DC, Pres::Plain, cert=true, CERT, qs=[[1, 0]], fault=0, codes=[10]);
 static_harness!(c07_q_st_ds_def_n2g6_ab_pl_cert, n=2, words=1, unwind=6, Sem::ST, Enc::Default, Kind::DS, Pres::Plain, cert=true, CERT, qs=[[0, 1]], fault=0, codes=[6]);
 static_harness!(c07_q_st_ds_def_n2g2_bb_pl_cert, n=2, words=1, unwind=6, Sem::ST, Enc::Default, Kind::DS, Pres::Plain, cert=true, CERT, qs=[[1, 1]], fault=0, codes=[2]);
 static_harness!(c07_q_gr_ds_def_n2g2_ba_pl_cert, n=2, words=1, unwind=6, Sem::GR, Enc::Default, Kind::DS, Pres::Plain, cert=true, CERT, qs=[[1, 0]], fault=0, codes=[2]);
-static_harness!(c07_q_st_dc_def_n3g8_ac_pl_cert, n=3, words=1, unwind=7, Sem::ST, Enc::Default, Kind::DC, Pres::Plain, cert=true, CERT, qs=[[0, 2]], fault=0, codes=[8]);
+static_harness!(c07_x_st_dc_def_n3g8_ac_pl_cert, n=3, words=1, unwind=7, Sem::ST, Enc::Default, Kind::DC, Pres::Plain, cert=true, CERT, qs=[[0, 2]], fault=0, codes=[8]);
 static_harness!(c07_q_st_dc_def_n3g2_bc_pl, n=3, words=1, unwind=7, Sem::ST, Enc::Default, Kind::DC, Pres::Plain, cert=false, ANSWER, qs=[[1, 2]], fault=0, codes=[2]);
-static_harness!(c07_t_co_dc_exp_n2g6_ba_pl_cert, n=2, words=1, unwind=6, Sem::CO, Enc::ExpCo, Kind::DC, Pres::Plain, cert=true, CERT, qs=[[1, 0]], fault=0, codes=[6]);
-static_harness!(c07_t_co_dc_exp_n2g14_ab_pl_cert, n=2, words=1, unwind=6, Sem::CO, Enc::ExpCo, Kind::DC, Pres::Plain, cert=true, CERT, qs=[[0, 1]], fault=0, codes=[14]);
-static_harness!(c07_t_co_dc_exp_n2g7_ab_pl_cert, n=2, words=1, unwind=6, Sem::CO, Enc::ExpCo, Kind::DC, Pres::Plain, cert=true, CERT, qs=[[0, 1]], fault=0, codes=[7]);
-static_harness!(c07_t_co_dc_exp_n2g0_bb_pl_cert, n=2, words=1, unwind=6, Sem::CO, Enc::ExpCo, Kind::DC, Pres::Plain, cert=true, CERT, qs=[[1, 1]], fault=0, codes=[0]);
 static_harness!(c07_t_st_dc_def_n2g8_ab_pl, n=2, words=1, unwind=6, Sem::ST, Enc::Default, Kind::DC, Pres::Plain, cert=false, ANSWER, qs=[[0, 1]], fault=0, codes=[8]);
 static_harness!(c07_t_st_ds_def_n2g8_ab_pl_cert, n=2, words=1, unwind=6, Sem::ST, Enc::Default, Kind::DS, Pres::Plain, cert=true, CERT, qs=[[0, 1]], fault=0, codes=[8]);
 static_harness!(c07_t_st_dc_def_n2g6_aa_pl, n=2, words=1, unwind=6, Sem::ST, Enc::Default, Kind::DC, Pres::Plain, cert=false, ANSWER, qs=[[0, 0]], fault=0, codes=[6]);
@@ -245,14 +223,6 @@ static_harness!(c07_t_st_dc_def_n2g14_ab_pl, n=2, words=1, unwind=6, Sem::ST, En
 static_harness!(c07_t_st_ds_def_n2g14_ab_pl_cert, n=2, words=1, unwind=6, Sem::ST, Enc::Default, Kind::DS, Pres::Plain, cert=true, CERT, qs=[[0, 1]], fault=0, codes=[14]);
 static_harness!(c07_t_st_dc_def_n2g2_ab_pl, n=2, words=1, unwind=6, Sem::ST, Enc::Default, Kind::DC, Pres::Plain, cert=false, ANSWER, qs=[[0, 1]], fault=0, codes=[2]);
 static_harness!(c07_t_st_ds_def_n2g2_ab_pl_cert, n=2, words=1, unwind=6, Sem::ST, Enc::Default, Kind::DS, Pres::Plain, cert=true, CERT, qs=[[0, 1]], fault=0, codes=[2]);
-static_harness!(c07_t_st_dc_def_n3g8_ca_pl_cert, n=3, words=1, unwind=7, Sem::ST, Enc::Default, Kind::DC, Pres::Plain, cert=true, CERT, qs=[[2, 0]], fault=0, codes=[8]);
-static_harness!(c07_t_st_dc_def_n3g2_cb_pl_cert, n=3, words=1, unwind=7, Sem::ST, Enc::Default, Kind::DC, Pres::Plain, cert=true, CERT, qs=[[2, 1]], fault=0, codes=[2]);
-static_harness!(c07_t_st_dc_def_n3g42_ac_pl_cert, n=3, words=1, unwind=7, Sem::ST, Enc::Default, Kind::DC, Pres::Plain, cert=true, CERT, qs=[[0, 2]], fault=0, codes=[42]);
-static_harness!(c07_t_st_dc_def_n3g0_ac_pl_cert, n=3, words=1, unwind=7, Sem::ST, Enc::Default, Kind::DC, Pres::Plain, cert=true, CERT, qs=[[0, 2]], fault=0, codes=[0]);
-static_harness!(c07_t_st_dc_def_n3g34_bc_pl_cert, n=3, words=1, unwind=7, Sem::ST, Enc::Default, Kind::DC, Pres::Plain, cert=true, CERT, qs=[[1, 2]], fault=0, codes=[34]);
-static_harness!(c07_t_co_dc_aux_n3g0_ac_pl_cert, n=3, words=2, unwind=9, Sem::CO, Enc::AuxCo, Kind::DC, Pres::Plain, cert=true, CERT, qs=[[0, 2]], fault=0, codes=[0]);
-static_harness!(c07_t_co_dc_aux_n3g2_bc_pl_cert, n=3, words=2, unwind=9, Sem::CO, Enc::AuxCo, Kind::DC, Pres::Plain, cert=true, CERT, qs=[[1, 2]], fault=0, codes=[2]);
-static_harness!(c07_t_co_dc_aux_n3g42_bc_pl_cert, n=3, words=2, unwind=9, Sem::CO, Enc::AuxCo, Kind::DC, Pres::Plain, cert=true, CERT, qs=[[1, 2]], fault=0, codes=[42]);
 static_harness!(c16_q_st_dc_def_n2g2_a_pl, n=2, words=1, unwind=6, Sem::ST, Enc::Default, Kind::DC, Pres::Plain, cert=false, HEADER, qs=[[0]], fault=0, codes=[2]);
 static_harness!(c16_q_st_dc_def_n2g6_b_pl, n=2, words=1, unwind=6, Sem::ST, Enc::Default, Kind::DC, Pres::Plain, cert=false, HEADER, qs=[[1]], fault=0, codes=[6]);
 static_harness!(c16_q_st_dc_def_n2g0_ab_pl, n=2, words=1, unwind=6, Sem::ST, Enc::Default, Kind::DC, Pres::Plain, cert=false, HEADER, qs=[[0, 1]], fault=0, codes=[0]);
@@ -272,6 +242,10 @@ static_harness!(c17_q_st_dc_def_n2g0_ab_pl_f3, n=2, words=1, unwind=6, Sem::ST, 
 static_harness!(c17_q_co_dc_aux_n2g2_b_pl_f2, n=2, words=1, unwind=7, Sem::CO, Enc::AuxCo, Kind::DC, Pres::Plain, cert=false, FAULT, qs=[[1]], fault=2, codes=[2]);
 static_harness!(c17_q_st_se_def_n2g6_x_pl_f2, n=2, words=1, unwind=6, Sem::ST, Enc::Default, Kind::SE, Pres::Plain, cert=false, FAULT, qs=[[]], fault=2, codes=[6]);
 static_harness!(c17_q_st_ds_def_n2g0_a_pl_cert_f3, n=2, words=1, unwind=6, Sem::ST, Enc::Default, Kind::DS, Pres::Plain, cert=true, FAULT, qs=[[0]], fault=3, codes=[0]);
+static_harness!(c17_q_st_dc_def_n2g2_b_pl_cert_f2, n=2, words=1, unwind=6, Sem::ST, Enc::Default, Kind::DC, Pres::Plain, cert=true, FAULT, qs=[[1]], fault=2, codes=[2]);
+static_harness!(c17_q_st_dc_def_n2g10_a_pl_f2, n=2, words=1, unwind=6, Sem::ST, Enc::Default, Kind::DC, Pres::Plain, cert=false, FAULT, qs=[[0]], fault=2, codes=[10]);
+static_harness!(c17_t_st_dc_def_n2g2_a_pl_f2, n=2, words=1, unwind=6, Sem::ST, Enc::Default, Kind::DC, Pres::Plain, cert=false, FAULT, qs=[[0]], fault=2, codes=[2]);
+static_harness!(c17_t_st_dc_def_n2g6_b_pl_f2, n=2, words=1, unwind=6, Sem::ST, Enc::Default, Kind::DC, Pres::Plain, cert=false, FAULT, qs=[[1]], fault=2, codes=[6]);
 static_harness!(c17_t_co_dc_exp_n2g14_a_pl_cert_f2, n=2, words=1, unwind=6, Sem::CO, Enc::ExpCo, Kind::DC, Pres::Plain, cert=true, FAULT, qs=[[0]], fault=2, codes=[14]);
 static_harness!(c17_t_st_ds_def_n2g6_b_pl_f2, n=2, words=1, unwind=6, Sem::ST, Enc::Default, Kind::DS, Pres::Plain, cert=false, FAULT, qs=[[1]], fault=2, codes=[6]);
 static_harness!(c17_t_st_se_def_n2g0_x_pl_f3, n=2, words=1, unwind=6, Sem::ST, Enc::Default, Kind::SE, Pres::Plain, cert=false, FAULT, qs=[[]], fault=3, codes=[0]);
@@ -280,7 +254,10 @@ static_harness!(c18_q_st_dc_def_n2g6_a_pl_cert, n=2, words=1, unwind=6, Sem::ST,
 static_harness!(c18_q_st_dc_def_n2g10_b_pl_cert, n=2, words=1, unwind=6, Sem::ST, Enc::Default, Kind::DC, Pres::Plain, cert=true, CALLS, qs=[[1]], fault=0, codes=[10]);
 static_harness!(c18_q_co_dc_aux_n2g6_a_pl_cert, n=2, words=1, unwind=7, Sem::CO, Enc::AuxCo, Kind::DC, Pres::Plain, cert=true, CALLS, qs=[[0]], fault=0, codes=[6]);
 static_harness!(c18_q_co_dc_aux_n2g14_ab_pl_cert, n=2, words=1, unwind=7, Sem::CO, Enc::AuxCo, Kind::DC, Pres::Plain, cert=true, CALLS, qs=[[0, 1]], fault=0, codes=[14]);
+static_harness!(c18_q_st_dc_def_n2g2_bb_pl, n=2, words=1, unwind=6, Sem::ST, Enc::Default, Kind::DC, Pres::Plain, cert=false, CALLS, qs=[[1, 1]], fault=0, codes=[2]);
 static_harness!(c18_q_st_ds_def_n2g2_b_pl, n=2, words=1, unwind=6, Sem::ST, Enc::Default, Kind::DS, Pres::Plain, cert=false, CALLS, qs=[[1]], fault=0, codes=[2]);
+static_harness!(c18_t_st_dc_def_n3g6_bc_pl_cert, n=3, words=1, unwind=7, Sem::ST, Enc::Default, Kind::DC, Pres::Plain, cert=true, CALLS, qs=[[1, 2]], fault=0, codes=[6]);
+static_harness!(c18_t_st_dc_def_n2g14_bb_pl_cert, n=2, words=1, unwind=6, Sem::ST, Enc::Default, Kind::DC, Pres::Plain, cert=true, CALLS, qs=[[1, 1]], fault=0, codes=[14]);
 static_harness!(c18_q_st_se_def_n2g0_x_pl, n=2, words=1, unwind=6, Sem::ST, Enc::Default, Kind::SE, Pres::Plain, cert=false, CALLS, qs=[[]], fault=0, codes=[0]);
 static_harness!(c18_t_st_ds_def_n2g0_ab_pl_cert, n=2, words=1, unwind=6, Sem::ST, Enc::Default, Kind::DS, Pres::Plain, cert=true, CALLS, qs=[[0, 1]], fault=0, codes=[0]);
 static_harness!(c18_t_co_dc_exp_n2g0_ab_pl, n=2, words=1, unwind=6, Sem::CO, Enc::ExpCo, Kind::DC, Pres::Plain, cert=false, CALLS, qs=[[0, 1]], fault=0, codes=[0]);
